@@ -2,12 +2,17 @@
   C06 — key exchange with any conformant server ends in a shared auth key and salt.
   Property theorems only. Model: Mtv/Handshake/{Num,Wire,Reg,Client,Server}.lean — `makeAuthKey` as
   REPAIRED by the C06-*/C07-* fix commits, run against `ServerSpec` (Server.lean), the conformant
-  server written from the protocol description. SHA-1, AES-256 and the factoring of pq are parameters;
+  server written from the protocol description. SHA-1 and AES-256 are parameters; the factoring of pq
+  is a parameter of `hs_agree` and the MODEL of `math.SplitPQ` (Mtv/Handshake/SplitPQ.lean) behind the
+  guard of handshake.go in `hs_agree_splitPQ` (last section);
   RSA is `m^e mod n` with the correctness of the key pair as a hypothesis. Helper lemmas:
-  Mtv/Lemmas/{C06Num,C06Wire,C06Stages}.lean (stages), C05 (IGE and the padding wrappers), C01 (TL
+  Mtv/Lemmas/{C06Num,C06Wire,C06Stages,C06SplitPQ}.lean, C05 (IGE and the padding wrappers), C01 (TL
   round trip).
 -/
 import Mtv.Lemmas.C06Stages
+import Mtv.Lemmas.C06SplitPQ
+import Mathlib.Tactic.NormNum.Prime
+import Mtv.Gen.SplitPQFacts
 namespace Mtv.Handshake
 open Mtv Mtv.TL Mtv.Ige
 
@@ -189,66 +194,226 @@ theorem hs_agree (c : Cfg) (s : Secrets) (h : ExchangeHyps c s) :
 
 /-- a concrete instance of the hypotheses (a toy RSA pair `e = d = 1` on a 2048-bit modulus, the
 order-reversing "cipher", the length "hash", dh_prime = 23, a new_nonce and a server_nonce that are
-ZERO — the all-leading-zeros corner): `ExchangeHyps` is satisfiable, `hs_agree` is not vacuous -/
-def toyCfg : Cfg :=
+ZERO — the all-leading-zeros corner), for any factoring parameter `sp` -/
+def toyCfgOf (sp : Nat → Option (Nat × Nat)) : Cfg :=
   { R := hsDescs,
     P := { H := lenHash, E := fun _ => List.reverse, D := fun _ => List.reverse,
-           split := fun _ => some (3, 5), gunzip := fun _ => none },
+           split := sp, gunzip := fun _ => none },
     key := ⟨2 ^ 2047, 1⟩,
     d := ⟨zeros 16, zeros 32, [2], zeros 15⟩ }
+
+/-- … with the factoring given as a constant -/
+def toyCfg : Cfg := toyCfgOf (fun _ => some (3, 5))
 
 def toySecrets : Secrets :=
   { d := 1, serverNonce := 0, p := 3, q := 5, g := 2, a := 3, dhPrime := 23, time := 7,
     pad := zeros 15, minimal := true, extraFps := [42], laterFps := [7, 2 ^ 64 - 1] }
 
-theorem toy_hyps : ExchangeHyps toyCfg toySecrets := by
+/-- `ExchangeHyps` is satisfiable for every factoring parameter that splits 15 into (3, 5) -/
+theorem toy_hyps_of (sp : Nat → Option (Nat × Nat)) (hsp : sp 15 = some (3, 5)) :
+    ExchangeHyps (toyCfgOf sp) toySecrets := by
   have hreg : HsReg hsDescs := by decide
+  have hn : fromBE (toyCfgOf sp).d.nonce = fromBE (zeros 16) := rfl
+  have hb : fromBE (toyCfgOf sp).d.b = fromBE [2] := rfl
   refine
-    { reg := hreg, wfr := wfr_of_wfrB _ (by decide), hlen := lenHash_length,
-      cipher := fun _ => revCipher, nonce := by simp [toyCfg], newNonce := by simp [toyCfg],
-      rnd := by simp [toyCfg], keyLo := Nat.le_refl _,
-      keyHi := Nat.pow_lt_pow_right (by decide) (by decide), keyE := by decide,
-      rsa := ?_, serverNonce := by decide, p32 := by decide, q32 := by decide, split := rfl, g := by decide,
+    { reg := hreg, wfr := wfr_of_wfrB _ (show wfrB hsDescs = true by decide), hlen := lenHash_length,
+      cipher := fun _ => revCipher, nonce := by simp [toyCfgOf], newNonce := by simp [toyCfgOf],
+      rnd := by simp [toyCfgOf], keyLo := Nat.le_refl _,
+      keyHi := Nat.pow_lt_pow_right (by decide) (by decide), keyE := (show (1 : Nat) < 2 ^ 63 by decide),
+      rsa := ?_, serverNonce := by decide, p32 := by decide, q32 := by decide, split := hsp, g := by decide,
       dhPos := by decide,
       dhFit := Nat.lt_of_lt_of_le (by decide : (23 : Nat) < 2 ^ 5) (Nat.pow_le_pow_right (by decide) (by decide)), time := by decide, pad := by simp [toySecrets],
-      fps := by decide, fpsLen := by decide, gb := by decide, colAnswer := ?_, colClient := ?_ }
+      fps := by decide, fpsLen := by decide, gb := by rw [hb]; decide, colAnswer := ?_, colClient := ?_ }
   · intro m hm
-    simp only [toyCfg, toySecrets, Nat.pow_one]
+    simp only [toyCfgOf, toySecrets, Nat.pow_one]
     exact Nat.mod_eq_of_lt hm
   · intro answer ha
     refine lenHash_noLongerCollision _ _ ?_
-    obtain ⟨bs, hbs, hl⟩ := marshal_inner_len hreg (fromBE toyCfg.d.nonce) toySecrets.serverNonce toySecrets.g
+    obtain ⟨bs, hbs, hl⟩ := marshal_inner_len hreg (fromBE (zeros 16)) toySecrets.serverNonce toySecrets.g
       (intBytes toySecrets.minimal toySecrets.dhPrime)
       (intBytes toySecrets.minimal (powMod toySecrets.g toySecrets.a toySecrets.dhPrime)) toySecrets.time
       (by decide) (by decide) (by decide) (by decide)
     have : answer = bs := by
-      have h2 : marshal toyCfg.R (srvAnswerVal toyCfg toySecrets) = .ok bs := hbs
+      have h2 : marshal (toyCfgOf sp).R (srvAnswerVal (toyCfgOf sp) toySecrets) = .ok bs := hbs
       rw [ha] at h2; cases h2; rfl
     subst this
     have hp : (List.take (tempPadLen (20 + answer.length)) toySecrets.pad).length ≤ 15 := by
-      simp [toySecrets]; omega
+      simp [toySecrets]
     have h1 : (intBytes toySecrets.minimal toySecrets.dhPrime).length ≤ 256 := by decide
     have h2 : (intBytes toySecrets.minimal (powMod toySecrets.g toySecrets.a toySecrets.dhPrime)).length ≤ 256 := by decide
     have : (256 : Nat) ^ 20 = 2 ^ 160 := by rw [show (256 : Nat) = 2 ^ 8 from rfl, ← Nat.pow_mul]
     omega
   · intro msg hm
     refine lenHash_noLongerCollision _ _ ?_
-    obtain ⟨bs, hbs, hl⟩ := marshal_clientInner_len hreg (fromBE toyCfg.d.nonce) toySecrets.serverNonce 0
-      (bigBytes (powMod toySecrets.g (fromBE toyCfg.d.b) toySecrets.dhPrime)) (by decide) (by decide) (by decide)
+    obtain ⟨bs, hbs, hl⟩ := marshal_clientInner_len hreg (fromBE (zeros 16)) toySecrets.serverNonce 0
+      (bigBytes (powMod toySecrets.g (fromBE [2]) toySecrets.dhPrime)) (by decide) (by decide) (by decide)
     have : msg = bs := by
-      have h2 : marshal toyCfg.R (cliInnerVal toyCfg toySecrets) = .ok bs := hbs
+      have h2 : marshal (toyCfgOf sp).R (cliInnerVal (toyCfgOf sp) toySecrets) = .ok bs := hbs
       rw [hm] at h2; cases h2; rfl
     subst this
-    have hp : (List.take (tempPadLen (20 + msg.length)) toyCfg.d.rnd).length ≤ 15 := by
-      simp [toyCfg]; omega
-    have h1 : (bigBytes (powMod toySecrets.g (fromBE toyCfg.d.b) toySecrets.dhPrime)).length ≤ 256 := by decide
+    have hp : (List.take (tempPadLen (20 + msg.length)) (toyCfgOf sp).d.rnd).length ≤ 15 := by
+      simp [toyCfgOf]
+    have h1 : (bigBytes (powMod toySecrets.g (fromBE [2]) toySecrets.dhPrime)).length ≤ 256 := by decide
     have : (256 : Nat) ^ 20 = 2 ^ 160 := by rw [show (256 : Nat) = 2 ^ 8 from rfl, ← Nat.pow_mul]
     omega
+
+theorem toy_hyps : ExchangeHyps toyCfg toySecrets := toy_hyps_of _ rfl
 
 /-- … and on that instance the theorem yields a completed exchange with a stored session -/
 example : (exchange toyCfg toySecrets).client.result = some (.ok ()) ∧
     (exchange toyCfg toySecrets).client.encrypted = true := by
   obtain ⟨_, _, _, h⟩ := hs_agree toyCfg toySecrets toy_hyps
   exact ⟨h.1, h.2.2.2.2.2.2.2.2.1⟩
+
+/-! ## the factoring of pq: `math.SplitPQ` inside the model
+
+`hs_agree` takes the factoring as a parameter `split` with the hypothesis `split (p·q) = some (p, q)`.
+This section replaces that hypothesis by theorems about `splitPQ` (Mtv/Handshake/SplitPQ.lean), the
+statement-by-statement model of `math.SplitPQ`, tied to the source by `splitpq_matches_source`.
+What remains a hypothesis is that the randomised walk RETURNS within the rounds the model is given
+(`splitPQ fuel draws pq = .ok r`): termination of Pollard's rho is a statement about the draws (it holds
+with probability 1 over them, and for no bound on the rounds in the worst case); it is not provable
+for all draw streams, and false for some (`splitPQ … 4` with a stream that always yields `g = 4`). -/
+
+/-- **The inner loop is multiplication-and-add modulo `n`.** For every `b`, every `a, c < n`: the
+double-and-add loop of `SplitPQ` (`a, b, c := x, x, q; for b > 0 { … }`) ends with
+`c + a·b mod n` — so one pass of the walk is `x ↦ x² + q mod pq`. -/
+theorem mulAddMod_spec {n a c : Nat} (b : Nat) (ha : a < n) (hc : c < n) :
+    mulAddMod n a b c = (c + a * b) % n := mulAddMod_eq b ha hc
+
+example : mulAddMod 0x17ED48941A08F981 1613116363541509719 1613116363541509719 30
+      = (30 + 1613116363541509719 * 1613116363541509719) % 0x17ED48941A08F981 ∧
+    mulAddMod 0x17ED48941A08F981 1613116363541509719 1613116363541509719 30 = 1400231950211202908 :=
+  ⟨mulAddMod_spec _ (by decide) (by decide), by decide +kernel⟩
+
+/-- … and the walk of one round stays below `pq`: `x ↦ (q + x·x) mod pq` -/
+theorem rho_step_is_square_plus_q {what q : Nat} {s : Rho} (hx : s.x < what) (hq : q < what) :
+    (rhoStep what q s).x = (q + s.x * s.x) % what ∧ (rhoStep what q s).x < what := rhoStep_x hx hq
+
+/-- **The middle loop ends by itself.** `j` counts up to `lim`: once `lim ≤ j + fuel` any further fuel
+changes nothing. The model runs `for j < lim && flag` with `fuel = lim` from `j = 1`, so its fuel is
+never what ends the loop. -/
+theorem rho_loop_ends (what q lim fuel : Nat) (s : Rho) (h : lim ≤ s.j + fuel) (k : Nat) :
+    rhoLoop what q lim (fuel + k) s = rhoLoop what q lim fuel s := rhoLoop_fuel what q lim fuel s h k
+
+/-- **Partial correctness of `SplitPQ`.** For EVERY number of rounds, EVERY stream of draws and EVERY
+`pq` (in particular every `pq ≥ 4`, what the guard lets through): whatever the random walk did, a
+returned pair is a factorisation in order — `p1 · p2 = pq`, `1 < p1 ≤ p2 < pq`. -/
+theorem splitPQ_sound (fuel : Nat) (draws : Nat → Nat × Nat) (pq p1 p2 : Nat)
+    (h : splitPQ fuel draws pq = .ok (p1, p2)) : p1 * p2 = pq ∧ 1 < p1 ∧ p1 ≤ p2 ∧ p2 < pq :=
+  outerLoop_sound pq draws fuel 0 0 (p1, p2) (Or.inl rfl) h
+
+/-- the test vector of the repository (internal/math/math_test.go), with draws that make the walk find
+1229739323 at its 17th step: `q = (0x…D & 15) + 17 = 30`, `x = 1613116363541509718 + 1` -/
+example : splitPQ 1 (fun _ => (0x9E3779B97F4A7C1D, 1613116363541509718)) 0x17ED48941A08F981
+    = .ok (1229739323, 1402015859) := by decide +kernel
+
+/-- 101 · 103, found in the first round after a longer walk; equal primes; the smallest product -/
+example : splitPQ 4 (fun i => (5 + i, 1234 + i)) 10403 = .ok (101, 103) ∧
+    splitPQ 4 (fun i => (5 + i, 1234 + i)) 378221 = .ok (613, 617) ∧
+    splitPQ 3 (fun i => (i, 7 * i)) 9 = .ok (3, 3) ∧
+    splitPQ 3 (fun i => (5 + i, 35 + i)) 4 = .ok (2, 2) := by decide +kernel
+
+/-- **On a product of two primes the result is THE pair.** `p ≤ q` prime: whatever the rounds and the
+draws, a returned pair is `(p, q)` — the real function (math/rand seeded with the clock) and the model
+run with any fixed stream agree whenever both return. -/
+theorem splitPQ_semiprime {p q : Nat} (hp : Nat.Prime p) (hq : Nat.Prime q) (hle : p ≤ q)
+    (fuel : Nat) (draws : Nat → Nat × Nat) (p1 p2 : Nat)
+    (h : splitPQ fuel draws (p * q) = .ok (p1, p2)) : p1 = p ∧ p2 = q := by
+  obtain ⟨hm, h1, h2, _⟩ := splitPQ_sound fuel draws (p * q) p1 p2 h
+  exact semiprime_unique hp hq hle hm h1 h2
+
+example : Nat.Prime 101 ∧ Nat.Prime 103 ∧ splitPQ 4 (fun i => (5 + i, 1234 + i)) (101 * 103) = .ok (101, 103) :=
+  ⟨by norm_num, by norm_num, by decide +kernel⟩
+
+/-- **No division by zero from 2 on** (so none behind the guard, which lets through `pq ≥ 4` only):
+the two `Mod` calls of `SplitPQ` have the divisors `what` and `what − 1`. -/
+theorem splitPQ_no_panic {pq : Nat} (h : 2 ≤ pq) (fuel : Nat) (draws : Nat → Nat × Nat) (site : String) :
+    splitPQ fuel draws pq ≠ .panic site := outerLoop_no_panic pq draws h fuel 0 0 site
+
+example : splitPQ 2 (fun i => (i, i)) 4 ≠ .panic siteModWhat := splitPQ_no_panic (by decide) _ _ _
+
+/-- **… and below 2 it does divide by zero** (witness; the harness replays it against the real function:
+`c06.splitraw 1`, `c06.splitraw 0`): `SplitPQ(1)` panics in `x.Mod(x, whatnext)` with `whatnext = 0`,
+`SplitPQ(0)` in `q.Mod(q, what)`, in the first round, whatever the draws. The guard of handshake.go
+(`pq.Cmp(big.NewInt(4)) < 0` ⇒ error) excludes both. -/
+theorem splitPQ_panics_below_two (fuel : Nat) (draws : Nat → Nat × Nat) :
+    splitPQ (fuel + 1) draws 1 = .panic siteModWhatnext ∧ splitPQ (fuel + 1) draws 0 = .panic siteModWhat := by
+  constructor <;> simp [splitPQ, outerLoop]
+
+/-- **On a prime `SplitPQ` never returns**: after any number of rounds the outer loop is still going
+(every `g` it computes is 1 or `pq`). The guard (`pq.ProbablyPrime(0)` ⇒ error) excludes primes. -/
+theorem splitPQ_prime_runs {pq : Nat} (hp : Nat.Prime pq) (fuel : Nat) (draws : Nat → Nat × Nat) :
+    splitPQ fuel draws pq = .running := by
+  cases hs : splitPQ fuel draws pq with
+  | running => rfl
+  | panic site => exact absurd hs (splitPQ_no_panic hp.two_le fuel draws site)
+  | ok r =>
+    obtain ⟨p1, p2⟩ := r
+    obtain ⟨hm, h1, h2, h3⟩ := splitPQ_sound fuel draws pq p1 p2 hs
+    rcases (Nat.dvd_prime hp).1 ⟨p2, hm.symm⟩ with h | h
+    · omega
+    · omega
+
+example : splitPQ 2 (fun i => (i, 3 * i)) 10007 = .running := splitPQ_prime_runs (by norm_num) _ _
+
+/-- **The model was written against the source of this working tree.** The statement skeleton of
+`func SplitPQ` extracted from internal/math/math.go by go/parser on this run — the imports and package
+variables it refers to (`big15 = big.NewInt(15)`, …), its signature, every statement in order with
+its nesting: loops with their conditions, every assignment with the `big.Int` method called and its
+operands, the constants 64 and 18, the swap, the return — equals the list in
+Mtv/Handshake/SplitPQ.lean. Any edit of the function other than comments breaks this obligation. -/
+theorem splitpq_matches_source : Mtv.Gen.splitPQSource = modelSplitPQ := by decide +kernel
+
+/-- **Agreement, with the factoring modelled.** As `hs_agree`, but the client's `split` parameter is
+the guard of handshake.go followed by the model of `math.SplitPQ` (`guardedSplit`), and instead of
+ASSUMING that the factoring returns the server's `(p, q)`:
+* `hp hq hle` — the server's `pq` is the product of two primes `p ≤ q` (what the protocol prescribes);
+* `hpp` — `big.Int.ProbablyPrime(0)` does not take that product for a prime (math/big is not modelled;
+  its documentation: exact below 2^64, and here `p·q < 2^64`);
+* `hret` — **the call returns**: within `fuel` rounds of fresh draws the walk of the model has found a
+  proper divisor (`splitPQ fuel draws (p·q) = .ok r` for some `r`). This is the termination of a
+  randomised algorithm: true with probability 1 over the draws, not provable for every stream, and the
+  one thing about `SplitPQ` that stays assumed (observed on the real function on every run:
+  `c06.split`). WHAT it returns is not assumed: `splitPQ_semiprime`.
+* `h` — every other hypothesis of `ExchangeHyps` (stated as: `ExchangeHyps` holds as soon as its
+  factoring clause does). -/
+theorem hs_agree_splitPQ (c : Cfg) (s : Secrets) (pp : Nat → Bool) (fuel : Nat) (draws : Nat → Nat × Nat)
+    (hsplit : c.P.split = guardedSplit pp fuel draws)
+    (hp : Nat.Prime s.p) (hq : Nat.Prime s.q) (hle : s.p ≤ s.q)
+    (hpp : pp (s.p * s.q) = false)
+    (hret : ∃ r, splitPQ fuel draws (s.p * s.q) = .ok r)
+    (h : c.P.split (s.p * s.q) = some (s.p, s.q) → ExchangeHyps c s) :
+    ∃ req1 req2 req3,
+      let K := beBytes (s.g ^ (s.a * fromBE c.d.b) % s.dhPrime) 256
+      let salt := specSalt (beBytes (fromBE c.d.newNonce) 32) (beBytes s.serverNonce 16)
+      let hash1 := specNonceHash c.P.H (beBytes (fromBE c.d.newNonce) 32) 1 K
+      (exchange c s).client.result = some (.ok ()) ∧
+      (exchange c s).client.authKey = K ∧ K.length = 256 ∧
+      (exchange c s).server = some ⟨K, salt, hash1⟩ ∧
+      (exchange c s).client.authKeyHash = ((c.P.H K).drop 12).take 8 ∧
+      (exchange c s).client.salt = salt ∧
+      (exchange c s).client.nonceHash1 = hash1 ∧
+      (exchange c s).client.serviceMode = false ∧ (exchange c s).client.encrypted = true ∧
+      (exchange c s).actions = [.sendPlain req1, .sendPlain req2, .sendPlain req3, .setEncrypted,
+        .saveSession K (((c.P.H K).drop 12).take 8) salt] := by
+  obtain ⟨⟨p1, p2⟩, hr⟩ := hret
+  obtain ⟨e1, e2⟩ := splitPQ_semiprime hp hq hle fuel draws p1 p2 hr
+  subst e1 e2
+  have h4 : 4 ≤ s.p * s.q := by
+    have := Nat.mul_le_mul hp.two_le hq.two_le
+    omega
+  have hs : c.P.split (s.p * s.q) = some (s.p, s.q) := by
+    rw [hsplit]; exact guardedSplit_some.2 ⟨h4, hpp, hr⟩
+  exact hs_agree c s (h hs)
+
+/-- non-vacuity: the toy instance with `split` = guard + model (a primality test that says "composite",
+two rounds, a draw stream), `pq = 15`: the hypotheses hold and the exchange completes -/
+example : (exchange (toyCfgOf (guardedSplit (fun _ => false) 2 (fun i => (5 + i, 1234 + i)))) toySecrets).client.result
+    = some (.ok ()) := by
+  obtain ⟨_, _, _, h⟩ := hs_agree_splitPQ (toyCfgOf (guardedSplit (fun _ => false) 2 (fun i => (5 + i, 1234 + i))))
+    toySecrets (fun _ => false) 2 (fun i => (5 + i, 1234 + i)) rfl (by norm_num [toySecrets]) (by norm_num [toySecrets])
+    (by decide) rfl ⟨(3, 5), by decide +kernel⟩ (fun hs => toy_hyps_of _ hs)
+  exact h.1
 
 end Mtv.Handshake
